@@ -1,4 +1,4 @@
-\* the code before fix D19 (late ClosedStream): P_C05_ListPeers MUST fail
+\* seeded: a replaced inbound stream reports no ClosedStream: P_C05_ListPeers MUST fail
 SPECIFICATION Spec
 CONSTANTS
   p1 = p1
@@ -21,8 +21,8 @@ CONSTANTS
   FixD12 = TRUE
   RetryRechecks = TRUE
   RetryFanoutAware = TRUE
-  ClosedOrdered = FALSE
-  DupClears = TRUE
+  ClosedOrdered = TRUE
+  DupClears = FALSE
   MaxDup = 1
 INVARIANT TypeOK
 INVARIANT P_C05_WireTruth
